@@ -47,6 +47,23 @@ def nat_gen(ctx: Ctx, bodies: list[dict], tag: str) -> list[dict]:
     return json.loads(outp.read_text())
 
 
+def national_valid_ibans(ctx: Ctx, table: dict, rng: random.Random, per: int, tag: str) -> list[str]:
+    """IBANs of the 22 countries whose national check digits are right (reference digits from the
+    specification): the population real-world IBANs come from."""
+    bodies = []
+    for cc in NAT:
+        row = table.get(cc)
+        if row is None or gen.row_classes(row) is None:
+            continue
+        for i in range(per):
+            bodies.append({"cc": cps(cc), "b": cps(gen.bban_for(row, rng, "letters" if i % 2 else "random"))})
+    out = []
+    for bd, fx in zip(bodies, nat_gen(ctx, bodies, tag)):
+        if fx["ok"]:
+            out.append(iban_of(text(bd["cc"]), text(fx["b"])))
+    return out
+
+
 def iban_of(cc: str, bban: str) -> str:
     return cc + gen.check_digits(cc, bban) + bban
 
